@@ -206,6 +206,7 @@ pub fn workers_from_env() -> usize {
 pub fn collect_runs(
     check: &str,
     seed: u64,
+    start: u64,
     runs: u64,
     workers: usize,
     run_fn: &(dyn Fn(u64, u64) -> RunOut + Sync),
@@ -216,10 +217,11 @@ pub fn collect_runs(
         for _ in 0..workers.max(1) {
             s.spawn(|| {
                 loop {
-                    let i = next.fetch_add(1, Ordering::Relaxed);
-                    if i >= runs {
+                    let k = next.fetch_add(1, Ordering::Relaxed);
+                    if k >= runs {
                         break;
                     }
+                    let i = start + k;
                     let rs = mix(seed, check, i);
                     let out = match guarded(|| run_fn(rs, i)) {
                         Ok(o) => o,
@@ -231,7 +233,7 @@ pub fn collect_runs(
                             std::process::exit(2);
                         }
                     };
-                    *slots[i as usize].lock().unwrap() = Some(out);
+                    *slots[k as usize].lock().unwrap() = Some(out);
                 }
             });
         }
@@ -254,91 +256,105 @@ pub fn drive(
     extra: &mut dyn FnMut(&mut serde_json::Map<String, Value>),
 ) -> i32 {
     let t0 = Instant::now();
-    let outs = collect_runs(
-        batch.spec.check_name,
-        batch.seed,
-        batch.runs,
-        batch.workers,
-        run_fn,
-    );
+    // Runs are executed and folded in chunks (in run-index order, so the result does not
+    // depend on the chunk size or the worker count); a chunk's outputs are dropped once
+    // folded, which keeps the thorough tiers' memory flat.
+    const CHUNK: u64 = 10_000;
+    let known = load_known();
+    let mut acc = Acc::default();
+    let mut start = 0u64;
+    while start < batch.runs {
+        let n = CHUNK.min(batch.runs - start);
+        let outs = collect_runs(batch.spec.check_name, batch.seed, start, n, batch.workers, run_fn);
+        acc.absorb(&known, batch.spec.property, start, outs);
+        start += n;
+    }
     let wall_runs = t0.elapsed().as_secs_f64();
-    finish(batch, outs, wall_runs, t0, minimise, extra)
+    finish(batch, acc, known, wall_runs, t0, minimise, extra)
+}
+
+/// What a batch folds its runs into.
+#[derive(Default)]
+pub struct Acc {
+    runs: u64,
+    distinct: BTreeSet<u64>,
+    shapes: BTreeSet<u64>,
+    probes: BTreeMap<&'static str, u64>,
+    faults: BTreeMap<&'static str, u64>,
+    samples: Vec<Value>,
+    fallback_samples: Vec<Value>,
+    steps: u64,
+    sim_ms: u64,
+    known_seen: BTreeMap<String, u64>,
+    new_seen: BTreeMap<String, (u64, Finding)>,
+    clean_runs: u64,
+    digest: u64,
+    steps_hist: BTreeMap<u64, u64>,
+}
+
+impl Acc {
+    fn absorb(&mut self, known: &[Known], prop: &str, start: u64, outs: Vec<RunOut>) {
+        for (k, o) in outs.into_iter().enumerate() {
+            let i = start + k as u64;
+            self.runs += 1;
+            if o.nontrivial {
+                self.distinct.insert(o.hash);
+            }
+            self.shapes.insert(o.shape);
+            for (k, v) in &o.probes {
+                *self.probes.entry(k).or_insert(0) += v;
+            }
+            for (k, v) in &o.faults {
+                *self.faults.entry(k).or_insert(0) += v;
+            }
+            self.steps += o.steps;
+            self.sim_ms += o.sim_ms;
+            *self.steps_hist.entry((o.steps / 8) * 8).or_insert(0) += 1;
+            self.digest = self.digest.rotate_left(5).wrapping_add(o.digest ^ i.wrapping_mul(0x9E37_79B9));
+            if let Some(s) = &o.sample {
+                if self.samples.len() < 3 && o.nontrivial {
+                    self.samples.push(s.clone());
+                } else if self.fallback_samples.len() < 2 {
+                    self.fallback_samples.push(s.clone());
+                }
+            }
+            let mut any = false;
+            for f in o.findings {
+                if f.property != prop {
+                    continue;
+                }
+                any = true;
+                if is_known_open(known, prop, &f.signature) {
+                    *self.known_seen.entry(f.signature.clone()).or_insert(0) += 1;
+                } else {
+                    match self.new_seen.get_mut(&f.signature) {
+                        Some(e) => e.0 += 1,
+                        None => {
+                            self.new_seen.insert(f.signature.clone(), (1, f));
+                        }
+                    }
+                }
+            }
+            if !any {
+                self.clean_runs += 1;
+            }
+        }
+    }
 }
 
 pub fn finish(
     batch: Batch,
-    outs: Vec<RunOut>,
+    acc: Acc,
+    _known: Vec<Known>,
     wall_runs: f64,
     t0: Instant,
     minimise: Option<Minimiser<'_>>,
     extra: &mut dyn FnMut(&mut serde_json::Map<String, Value>),
 ) -> i32 {
-    let known = load_known();
     let prop = batch.spec.property;
-
-    let mut distinct: BTreeSet<u64> = BTreeSet::new();
-    let mut shapes: BTreeSet<u64> = BTreeSet::new();
-    let mut probes: BTreeMap<&'static str, u64> = BTreeMap::new();
-    let mut faults: BTreeMap<&'static str, u64> = BTreeMap::new();
-    let mut samples: Vec<Value> = Vec::new();
-    let mut steps = 0u64;
-    let mut sim_ms = 0u64;
-    let mut known_seen: BTreeMap<String, u64> = BTreeMap::new();
-    let mut new_seen: BTreeMap<String, (u64, Finding)> = BTreeMap::new();
-    let mut clean_runs = 0u64;
-    let mut digest = 0u64;
-    let mut steps_hist: BTreeMap<u64, u64> = BTreeMap::new();
-
-    for (i, o) in outs.iter().enumerate() {
-        if o.nontrivial {
-            distinct.insert(o.hash);
-        }
-        shapes.insert(o.shape);
-        for (k, v) in &o.probes {
-            *probes.entry(k).or_insert(0) += v;
-        }
-        for (k, v) in &o.faults {
-            *faults.entry(k).or_insert(0) += v;
-        }
-        steps += o.steps;
-        sim_ms += o.sim_ms;
-        *steps_hist.entry((o.steps / 8) * 8).or_insert(0) += 1;
-        digest = digest
-            .rotate_left(5)
-            .wrapping_add(o.digest ^ (i as u64).wrapping_mul(0x9E37_79B9));
-        if samples.len() < 3 && o.nontrivial {
-            if let Some(s) = &o.sample {
-                samples.push(s.clone());
-            }
-        }
-        let mut any = false;
-        for f in &o.findings {
-            if f.property != prop {
-                continue;
-            }
-            any = true;
-            if is_known_open(&known, prop, &f.signature) {
-                *known_seen.entry(f.signature.clone()).or_insert(0) += 1;
-            } else {
-                new_seen
-                    .entry(f.signature.clone())
-                    .and_modify(|e| e.0 += 1)
-                    .or_insert_with(|| (1, f.clone()));
-            }
-        }
-        if !any {
-            clean_runs += 1;
-        }
-    }
+    let Acc { runs: n_runs, distinct, shapes, probes, faults, mut samples, fallback_samples, steps, sim_ms, known_seen, new_seen, clean_runs, digest, steps_hist } = acc;
     if samples.is_empty() {
-        for o in &outs {
-            if let Some(s) = &o.sample {
-                samples.push(s.clone());
-                if samples.len() >= 2 {
-                    break;
-                }
-            }
-        }
+        samples = fallback_samples;
     }
 
     // Interface lines.
@@ -390,20 +406,20 @@ pub fn finish(
 
     let wall = t0.elapsed().as_secs_f64();
     let mut cov = serde_json::Map::new();
-    cov.insert("evaluations".into(), json!(outs.len()));
+    cov.insert("evaluations".into(), json!(n_runs));
     cov.insert("distinct_nontrivial".into(), json!(distinct.len()));
     cov.insert("rule".into(), json!(batch.spec.rule));
     cov.insert("samples".into(), Value::Array(samples));
     cov.insert("exhaustive".into(), json!(false));
     cov.insert("engine".into(), json!(batch.spec.engine));
-    cov.insert("runs".into(), json!(outs.len()));
+    cov.insert("runs".into(), json!(n_runs));
     cov.insert(
         "runs_per_hour".into(),
-        json!((outs.len() as f64 / wall_runs.max(1e-6) * 3600.0) as u64),
+        json!((n_runs as f64 / wall_runs.max(1e-6) * 3600.0) as u64),
     );
     cov.insert(
         "seeds_per_hour".into(),
-        json!((outs.len() as f64 / wall_runs.max(1e-6) * 3600.0) as u64),
+        json!((n_runs as f64 / wall_runs.max(1e-6) * 3600.0) as u64),
     );
     cov.insert("steps_total".into(), json!(steps));
     cov.insert("sim_time_covered_ms".into(), json!(sim_ms));
@@ -454,7 +470,7 @@ pub fn finish(
         batch.spec.check_name,
         batch.tier.name(),
         batch.seed,
-        outs.len(),
+        n_runs,
         distinct.len(),
         known_seen.len(),
         violations,
